@@ -88,3 +88,28 @@ op!(c25_step_exit_normal, Instruction::Exit(ExitReason::Normal), None);
 op!(c25_step_jump_sym, Instruction::Jump(Target::Resolved(kani::any())), Some(true));
 op!(c25_step_branch_empty, Instruction::Branch(Target::Resolved(kani::any())), Some(false));
 op!(c25_step_call_sym, Instruction::Call(Target::Resolved(kani::any())), Some(true));
+
+// operand-carrying opcodes with hostile operands (a hand-built or corrupted module controls them)
+op!(c25_step_mstructset_huge, Instruction::MStructSet(core::num::NonZeroUsize::MAX), Some(false));
+op!(c25_step_mstructget_huge, Instruction::MStructGet(core::num::NonZeroUsize::MAX), Some(false));
+
+/// RestoreSP when the saved stack pointer (bytecode-controlled: SaveSP / Call / Recall push onto the
+/// same control stack) exceeds the current stack length: an error, never a panic.
+#[kani::proof]
+#[kani::unwind(4)]
+#[kani::stub(alloc::fmt::format, nofmt)]
+fn c25_step_restoresp_saved_beyond_stack() {
+    let machine = Machine::new(vec![Instruction::RestoreSP]);
+    let mut io = NoIo;
+    let ctx = CommandContext::Action(ActionContext { name: ident!("a"), head_id: CmdId::default() });
+    let mut rs = machine.create_run_state(&mut io, ctx);
+    let saved: usize = kani::any();
+    kani::assume(saved >= 1 && saved < usize::MAX);
+    rs.call_state.push(saved);
+    let r = rs.step();
+    let ok = r.is_ok();
+    core::mem::forget(r);
+    core::mem::forget(rs);
+    core::mem::forget(machine);
+    assert!(!ok);
+}
